@@ -39,6 +39,7 @@ fn base_program(g: &mut G) -> (Scenario, bool) {
         mailbox: g.mailbox(),
         entry: if owning { Entry::BuilderSpawnOwning } else { Entry::BuilderSpawn },
         stopped_yields: g.below(2) as u32,
+        cfg_order: g.below(6) as u8,
         ..Default::default()
     };
     for t in 0..g.range(1, 2) {
